@@ -276,3 +276,28 @@ def mk_ident_value(tag, type=None):
 
 def set_identity(obj, tag):
     return obj
+
+
+def _sgn(a, w):
+    a &= (1 << w) - 1
+    return a - (1 << w) if a >> (w - 1) else a
+
+
+def bv_sext(a, from_w, to_w):
+    return _sgn(a, from_w) & ((1 << to_w) - 1)
+
+
+def bv_zext(a, from_w, to_w):
+    return (a & ((1 << from_w) - 1)) & ((1 << to_w) - 1)
+
+
+def bv_add(a, b, w):
+    return (a + b) & ((1 << w) - 1)
+
+
+def bv_sub(a, b, w):
+    return (a - b) & ((1 << w) - 1)
+
+
+def bv_mul(a, b, w):
+    return (a * b) & ((1 << w) - 1)
